@@ -134,6 +134,9 @@ def make_array(arr, names=None, ds=None, name=None):
         data = data.copy()
         data.setflags(write=False)                             # the caller's buffer must not be written to anyway
     da = xr.DataArray(data, dims=[nm(d) for d in arr["dims"]], name=name)
+    if name is not None:
+        # model output carries attributes, and two arrays of one call seldom carry the same ones
+        da.attrs.update({"long_name": f"array {name} on {' '.join(map(str, da.dims))}", "units": "1"})
     if ds is not None:
         da = da.assign_coords({d: ds[d] for d in da.dims if d in ds.coords})
     return da
